@@ -555,7 +555,6 @@ Proof.
     destruct t; cbn in Ht; try discriminate; cbn; apply IH; intros y Hy; apply Hi; right; exact Hy.
 Qed.
 
-Definition r_finished (t : rpc) : bool := match t with RDone | CAdd [] => true | _ => false end.
 
 (* ANY number of concurrent reporters (cleanup handler, ticks, final report) and copy loops, ANY schedule *)
 Theorem traffic_once_all_schedules base ts sched :
